@@ -103,6 +103,7 @@ func (s *stream) setOffset(vbID uint16, offset *models.Offset, dirty bool) {
 
 			return p, false
 		})
+		s.anyDirtyOffset = true
 	} else {
 		logger.Log.Warn("vbID: %v not belong our vbID range", vbID)
 	}
